@@ -1,6 +1,7 @@
 """C01 - stored values come back identical, whatever type, size, storage path."""
 
 import io
+import enum
 import pickle
 
 from .. import common, gen, observe, probe
@@ -31,6 +32,27 @@ class MyStr(str):
 
 class MyInt(int):
     pass
+
+
+class MyBytes(bytes):
+    pass
+
+
+class MyFloat(float):
+    pass
+
+
+class Colour(str, enum.Enum):
+    RED = 'red'
+
+
+class Level(enum.IntEnum):
+    LOW = 1
+
+
+def attributed(obj, **attrs):
+    obj.__dict__.update(attrs)
+    return obj
 
 
 def plan(tier):
@@ -105,6 +127,13 @@ def values(rng, T, json_only):
         yield ('userclass_big', gen.Blob('r' * (T + 10)))
         yield ('str_subclass', MyStr('sub' * (T // 3 + 1)))
         yield ('int_subclass', MyInt(7))
+        yield ('str_subclass', attributed(MyStr('s'), note='kept', n=(1, 2.5)))
+        yield ('bytes_subclass', MyBytes(b'sub' * (T // 3 + 1)))
+        yield ('bytes_subclass', attributed(MyBytes(b's'), note='kept'))
+        yield ('float_subclass', attributed(MyFloat(2.5), unit='s'))
+        yield ('int_subclass', attributed(MyInt(2**70), unit='B'))
+        yield ('enum_member', Colour.RED)
+        yield ('enum_member', Level.LOW)
         yield ('bytearray', bytearray(b'ba' * (T // 2 + 1)))
     yield ('list', [1, 'a', None, [2.5, 'x\r\ny']])
     yield ('dict_str', {'a': 1, 'b': [2, 3.5, None], 'c\r': 'd\r\n'})
